@@ -181,7 +181,8 @@ def _run_tlc(workdir, module, *, cfg=None, workers=None, dump=False, coverage=Tr
         # anything else is a machinery failure (parse error, evaluation error, OOM ...)
         lines = out.splitlines()
         idx = [i for i, l in enumerate(lines) if l.startswith("Error:") or "***Parse Error***" in l or "Semantic errors" in l]
-        msg = "\n".join(lines[idx[0]:idx[0] + 25]) if idx else "\n".join(lines[-40:])
+        msg = "\n".join(l for l in lines[max(0, idx[0] - 25):idx[0] + 25] if not l.startswith(("Parsing file", "Semantic processing", "Linting of"))) \
+            if idx else "\n".join(lines[-40:])
         raise MachineryError("TLC failed (rc=%s) on %s:\n%s" % (p.returncode, module, msg))
     else:
         r.ok = True
